@@ -258,6 +258,49 @@ def raising_cases():
                            family='raising:%s:%s' % (fam, wrap))
 
 
+BOOL_EXPRS = ['a or b', 'a and b', 'a if c else b', 'not a or b',
+              'a or b and c', 'a and b or c', 'not a and not b', 'a == b or c',
+              'a or not b', '(a or b) and c', 'a in (b, c) or a', 'a if b else '
+              'not c', 'a or b or c', 'not (a and b)', 'a and (b or c)']
+
+
+def bool_expr_cases():
+    """unless renders its body exactly when if would not: expressions
+    whose top-level operator binds weaker than 'not', every truth
+    assignment, every spelling of the tag."""
+    forms = {
+        'dtml': '<dtml-unless "%s">U</dtml-unless>|<dtml-if "%s">I</dtml-if>',
+        'dtml=': '<dtml-unless expr="%s">U</dtml-unless>|<dtml-if expr="%s">'
+                 'I<dtml-else></dtml-if>',
+        'ssi': '<!--#unless expr="%s"-->U<!--#/unless-->|<!--#if expr="%s"'
+               '-->I<!--#endif-->',
+        'epfs': '%%(unless expr="%s")[U%%(unless)]|%%(if expr="%s")[I%%(if)]',
+        'else-form': '<dtml-if "%s"><dtml-else>U</dtml-if>|<dtml-if "%s">I'
+                     '</dtml-if>',
+    }
+    for e in BOOL_EXPRS:
+        for bits in itertools.product((0, 1), repeat=3):
+            for fname in sorted(forms):
+                yield dict(boolexpr=e, bits=list(bits), form=fname,
+                           src=forms[fname] % (e, e))
+
+
+def check_bool_expr(case):
+    from DocumentTemplate import HTML, String
+    a, b, c = case['bits']
+    truth = bool(eval(case['boolexpr'], {}, dict(a=a, b=b, c=c)))
+    cls = String if case['form'] == 'epfs' else HTML
+    try:
+        out = cls(case['src'])(a=a, b=b, c=c)
+    except Exception as e:
+        out = 'raised %r' % (e,)
+    exp = '|I' if truth else 'U|'
+    if out != exp:
+        return ('unless-complement', '%r with a=%d b=%d c=%d rendered %r, '
+                'expected %r' % (case['src'], a, b, c, out, exp))
+    return None
+
+
 def run(ast, ns, syntax='dtml', style=None):
     src, toks = dtml.print_ast(ast, syntax, dtml.Style(style) if style
                                else None)
@@ -336,6 +379,12 @@ def run_shard(shard):
                         acc.fail(bad[0], ['chain', kinds, has_else, shape,
                                           sx], bad[1])
     elif kind == 'single':
+        for case in bool_expr_cases():
+            bad = check_bool_expr(case)
+            acc.case(case, True, klass='unless-vs-if-expression',
+                     distinct_by_construction=True)
+            if bad:
+                acc.fail(bad[0], case, bad[1])
         for kd in KINDS:
             for form in ('unless', 'unless-else', 'call'):
                 if form == 'call' and kd == 'U':
@@ -380,6 +429,8 @@ def run_shard(shard):
 
 
 def replay(case):
+    if isinstance(case, dict) and 'boolexpr' in case:
+        return check_bool_expr(case)
     if isinstance(case, dict) and 'late' in case:
         import itertools as _it
         for c in _it.chain(late_cases(), raising_cases()):
